@@ -221,12 +221,65 @@ def check_std(ctx):
             if sort_reqs(json.loads(y.to_json())) != d1:
                 ctx.disc(None, "std-roundtrip", rel, "fixed point", "differs", stratum="std", case=case)
             src = json.loads(want)
+            # the re-serialized document is the source document: field by field, up to the spellings the writer is free
+            # in (requirement lists as sets with the owner added, empty misc / lower_funcs, defaulted keys)
+            ctx.count("monitor:std-document-preserved")
+            ns, nd = std_norm(src, src["name"]), std_norm(json.loads(x.to_json()), src["name"])
+            if ns != nd:
+                from vf.oracles.observe import diff
+
+                pth = diff(ns, nd)[0]
+                ctx.disc(None, "std-document-not-preserved", [rel, pth[0]], pth[1], pth[2], stratum="std", case=case)
+            # the extension object the package itself loaded at import time is that document too
+            import hugr.std as _std
+            import importlib
+
+            for modname in ("hugr.std.prelude", "hugr.std.int", "hugr.std.float", "hugr.std.logic",
+                            "hugr.std.collections.array", "hugr.std.collections.list",
+                            "hugr.std.collections.static_array"):
+                mod = importlib.import_module(modname)
+                for attr in dir(mod):
+                    obj = getattr(mod, attr)
+                    if isinstance(obj, hext.Extension) and obj.name == src["name"]:
+                        ctx.count("monitor:std-module-object")
+                        nm = std_norm(json.loads(obj.to_json()), src["name"])
+                        if nm != ns:
+                            from vf.oracles.observe import diff
+
+                            pth = diff(ns, nm)[0]
+                            ctx.disc(None, "std-module-object-differs", [modname, attr, pth[0]], pth[1], pth[2],
+                                     stratum="std", case=case)
             if sorted(src["types"]) != sorted(x.types) or sorted(src["operations"]) != sorted(x.operations):
                 ctx.disc(None, "std-load-incomplete", rel, [sorted(src["types"]), sorted(src["operations"])],
                          [sorted(x.types), sorted(x.operations)], stratum="std", case=case)
         except Exception as e:  # noqa: BLE001
             ctx.disc(None, "std-load-raises", rel, "loads", f"{type(e).__name__}: {str(e)[:200]}",
                      stratum="std", case=case)
+
+
+def std_norm(doc, own):
+    """an extension document up to the writer's freedoms: requirement lists as sorted sets without the owner, empty
+    `misc` / `lower_funcs` / `description` defaults dropped"""
+    def norm(j, key=None):
+        if isinstance(j, dict):
+            out = {}
+            for k, v in j.items():
+                if k in ("misc", "lower_funcs") and not v:
+                    continue
+                if k == "t" and v == "G" and "input" in j and "output" in j:
+                    continue    # (the tag of a function type is a defaulted key)
+                if k == "t" and v == "Sum" and "s" in j and key == "typ":
+                    continue    # (so is the tag of the sum type a sum value carries)
+                if k == "runtime_reqs" and isinstance(v, list):
+                    out[k] = sorted(set(v) - {own})
+                    continue
+                out[k] = norm(v, k)
+            return out
+        if isinstance(j, list):
+            return [norm(v) for v in j]
+        return j
+
+    return norm(doc)
 
 
 def check_helpers(ctx):
@@ -307,12 +360,58 @@ def check_helpers(ctx):
             ctx.disc(None, "helper-op-signature", what, want, got, stratum="helper", case=case)
 
 
+def check_register_op(ctx):
+    """definitions that enter an extension through the `register_op` decorator (the route the std helpers use) are
+    held like any other: the extension is their owner and is named among their signature's requirements, and they
+    survive the round trip"""
+    import hugr.ext as hext
+    from hugr import tys
+    from semver import Version
+
+    B = tys.Bool
+    sigs = {"mono": tys.FunctionType([B], [B, B]), "mono+reqs": tys.FunctionType([B], [], ["other.ext"]),
+            "poly": tys.PolyFuncType([tys.TypeTypeParam(tys.TypeBound.Any)],
+                                     tys.FunctionType([tys.Variable(0, tys.TypeBound.Any)], [])),
+            "opdefsig": hext.OpDefSig(tys.FunctionType([B], [B]), binary=False), "binary": None}
+    for k, (how, sig) in enumerate(sigs.items()):
+        for named in (True, False):
+            ctx.count("monitor:register_op")
+            case = {"register_op": how, "named": named}
+            ctx.case("register_op", case, True)
+            e = hext.Extension(f"reg.ext{k}", Version(0, 1, 0))
+
+            class Registered:
+                """doc of the registered class"""
+
+            e.register_op("GivenName" if named else None, sig, misc={"k": 1} if k % 2 else None)(Registered)
+            name = "GivenName" if named else "Registered"
+            od = e.operations.get(name)
+            if od is None or getattr(Registered, "const_op_def", None) is not od:
+                ctx.disc(None, "register_op-not-held", name, "held under its name and attached to the class",
+                         sorted(e.operations), stratum="register_op", case=case)
+                continue
+            if od.get_extension() is not e:
+                ctx.disc(None, "opdef-owner", name, e.name, repr(od.get_extension()), stratum="register_op", case=case)
+            pf = od.signature.poly_func
+            if how != "binary" and (pf is None or e.name not in pf.body.runtime_reqs):
+                ctx.disc(None, "opdef-requires-owner", name, f"{e.name} in runtime_reqs",
+                         None if pf is None else list(pf.body.runtime_reqs), stratum="register_op", case=case)
+            if how == "binary" and (pf is not None or not od.signature.binary):
+                ctx.disc(None, "opdef-fields", name, "binary, no signature", repr(od.signature),
+                         stratum="register_op", case=case)
+            d1 = json.loads(e.to_json())
+            d2 = json.loads(hext.Extension.from_json(e.to_json()).to_json())
+            if sort_reqs(d1) != sort_reqs(d2):
+                ctx.disc(None, "ext-roundtrip-document", name, "fixed point", "differs", stratum="register_op", case=case)
+
+
 def run(ctx):
     from vf.gen.extensions import gen_extension
 
     if ctx.shard == 0:
         ctx.guard("std", {"std": "all"}, check_std, ctx)
         ctx.guard("helper", {"helper": "all"}, check_helpers, ctx)
+        ctx.guard("register_op", {"register_op": "all"}, check_register_op, ctx)
     for i in ctx.mine(ctx.n(1000, 150000)):
         r = ctx.rng("extension", i)
         e = gen_extension(r)
@@ -326,5 +425,7 @@ def replay(ctx, rec):
         check_std(ctx)
     elif st == "helper":
         check_helpers(ctx)
+    elif st == "register_op":
+        check_register_op(ctx)
     else:
         check_ext(ctx, rec["case"])
